@@ -27,6 +27,9 @@ RULE = (
     "check_safety(rewritten) != LIKELY_SAFE for call-injecting modes. Non-trivial = base has its "
     "own globals/effects, > 255 memo entries, protocol <= 1, or sparse memo keys; distinct = "
     "distinct (base bytes, mode, loader)."
+    ' Also: qualified-name callables on protocol >= 4 bases, container and > 255-byte bytes'
+    ' arguments, and every other mode building its Pickled from one caller-owned opcode list'
+    ' reused across modes.'
 )
 ASSUMPTIONS = [
     "bases are restricted to pickles that leave exactly one object on the VM stack at STOP and "
